@@ -18,6 +18,7 @@ OPEN_SYSCALLS = {"open", "openat", "openat2", "creat"}
 WRITE_FLAGS = ("O_WRONLY", "O_RDWR", "O_CREAT", "O_TRUNC", "O_APPEND", "O_TMPFILE")
 LINE = re.compile(r"^(\d+)\s+(\w+)\((.*)$")
 RESUMED = re.compile(r"^(\d+)\s+<\.\.\. (\w+) resumed>(.*)$")
+RESULT = re.compile(r"\)\s+= ")
 FDPATH = re.compile(r"^(\d+)<([^>]*)>")
 
 
@@ -47,10 +48,11 @@ def parse_strace(path):
 
 
 def _split(pid, name, text):
-    i = text.rfind(") = ")
-    if i < 0:
+    ms = list(RESULT.finditer(text))
+    if not ms:
         return (pid, name, text, "?")
-    return (pid, name, text[:i], text[i + 4:].strip())
+    m = ms[-1]
+    return (pid, name, text[:m.start()], text[m.end():].strip())
 
 
 def allowed_path(p, root):
